@@ -30,7 +30,8 @@ ARRAY_OPS = ['setitem', 'append', 'iterappend', 'iterappend_empty', 'truncate', 
 RAGGED_OPS = ['append', 'append_empty', 'iterappend', 'iterappend_empty', 'truncate', 'delete', 'md_update',
               'md_setitem', 'md_pop', 'md_popitem', 'md_del']
 ORIGINS = ['default_open', 'at_creation', 'create_func', 'assigned', 'cycled', 'after_rplus_context',
-           'after_rplus_use', 'metadata_mode_then_reassigned', 'assigned_inside_context', 'assigned_live_generator']
+           'after_rplus_use', 'metadata_mode_then_reassigned', 'assigned_inside_context', 'assigned_live_generator',
+           'rplus_context_beside_live_generator']
 ARRAY_STATES = ['empty1d', 'empty2d', 'nonempty1d', 'nonempty2d']
 RAGGED_STATES = ['nosub', 'onlyempty', 'nonempty', 'nonempty_atom2']
 
@@ -123,6 +124,20 @@ def build(env, d, case):
             pass
         h._verif_keep.callback(g.close)
         h.accessmode = 'r'
+    elif origin == 'rplus_context_beside_live_generator':
+        # an r handle with a suspended (read-only) iterator; an explicit r+ context is entered and left beside it:
+        # afterwards the handle is as read-only as before, also while the iterator is still alive
+        import contextlib
+        h = opener(p)
+        h._verif_keep = contextlib.ExitStack()
+        g = h.iterchunks(1) if case['kind'] == 'Array' else h.iter_arrays()
+        try:
+            next(g, None)
+        except ValueError:
+            pass
+        h._verif_keep.callback(g.close)
+        with (h.open_array(accessmode='r+') if case['kind'] == 'Array' else h.open_arrays(accessmode='r+')):
+            pass
     elif origin == 'after_rplus_use':
         # successful writes in r+, then the mode is assigned back to r
         if case['kind'] == 'Array':
